@@ -24,11 +24,13 @@ Inductive entry := EntrySubprocess (default_path : string) | EntryModule (m : st
 Inductive argsrc := ArgPass | ArgConst (b : bool) | ArgOmitted.   (* what a call passes as use_graph_primitive *)
 Inductive acysrc := AcyPass | AcyConst (b : bool).                (* what a call passes as acyclic (omitted = False) *)
 Inductive branch := BrTop | BrPrim | BrElse.                      (* outside the guard | guard true | guard false *)
+Inductive variant := VAny | VInferred | VExplicit.                (* outside | inside `if graph is None:` | its else *)
 
 Record site := mk_site {        (* "if use_graph_primitive is None: use_graph_primitive = config.<flag>" + its guard *)
   s_fn : string; s_flag : cfgflag; s_not_acyclic : bool }.
 Record callrec := mk_call {     (* a call to a function that has a use_graph_primitive parameter *)
-  c_caller : string; c_branch : branch; c_callee : string; c_arg : argsrc; c_acy : acysrc }.
+  c_caller : string; c_branch : branch; c_variant : variant; c_callee : string;
+  c_arg : argsrc; c_acy : acysrc; c_graph : bool (* the call passes a graph *) }.
 Record emitrec := mk_emit { e_fn : string; e_branch : branch; e_op : native_op }.
 Record raiserec := mk_raise { r_fn : string; r_branch : branch; r_exc : string }.
 
@@ -199,6 +201,9 @@ Definition branch_active (taken : option bool) (b : branch) : bool :=
   | _, _ => false
   end.
 
+Definition variant_active (v : variant) (explicit : bool) : bool :=
+  match v with VAny => true | VInferred => negb explicit | VExplicit => explicit end.
+
 Definition pyerr_of_name (s : string) : pyerr :=
   if s =? "ValueError" then ValueError
   else if s =? "TypeError" then TypeError
@@ -208,10 +213,12 @@ Definition pyerr_of_name (s : string) : pyerr :=
   else if s =? "NotImplementedError" then NotImplementedErr
   else OtherError.
 
-(* native operators posted by a call fn(..., acyclic=acyclic, use_graph_primitive=arg) under cfg
-   (each emitting statement counted once; loops around it are assumed to run at least once) *)
+(* native operators posted by a call fn(..., [graph,] acyclic=acyclic, use_graph_primitive=arg)
+   under cfg; [explicit] says whether a graph is passed (else it is inferred from a 2-D array /
+   grid frame).  Each emitting statement is counted once; loops around it are assumed to run at
+   least once. *)
 Fixpoint run (T : tables) (fuel : nat) (fn : string) (cfg : config) (arg : option bool)
-         (acyclic : bool) : res (list native_op) :=
+         (acyclic : bool) (explicit : bool) : res (list native_op) :=
   match fuel with
   | O => Err RecursionError
   | S f =>
@@ -221,19 +228,21 @@ Fixpoint run (T : tables) (fuel : nat) (fn : string) (cfg : config) (arg : optio
       | Some r => Err (pyerr_of_name r.(r_exc))
       | None =>
           let here := map e_op (filter (fun e => (e.(e_fn) =? fn) && branch_active taken e.(e_branch)) T.(t_emits)) in
-          let calls := filter (fun c => (c.(c_caller) =? fn) && branch_active taken c.(c_branch)) T.(t_calls) in
+          let calls := filter (fun c => (c.(c_caller) =? fn) && branch_active taken c.(c_branch)
+                                        && variant_active c.(c_variant) explicit) T.(t_calls) in
           let* sub := mapM (fun c =>
                               run T f c.(c_callee) cfg
                                   (match c.(c_arg) with ArgPass => now | ArgConst b => Some b | ArgOmitted => None end)
-                                  (match c.(c_acy) with AcyPass => acyclic | AcyConst b => b end)) calls in
+                                  (match c.(c_acy) with AcyPass => acyclic | AcyConst b => b end)
+                                  c.(c_graph)) calls in
           Ok (here ++ concat sub)%list
       end
   end.
 
 Definition run_fuel : nat := 8.
 
-Definition emits (T : tables) (fn : string) (cfg : config) (arg : option bool) (acyclic : bool) :=
-  run T run_fuel fn cfg arg acyclic.
+Definition emits (T : tables) (fn : string) (cfg : config) (arg : option bool) (acyclic explicit : bool) :=
+  run T run_fuel fn cfg arg acyclic explicit.
 
 (* ------------------------------------------------------------------ helpers for the runner *)
 
